@@ -28,6 +28,27 @@ theorem hystrix_opens_iff (n : Nat) (dur pct vol : Int) (hn : 0 < n) (hw : 0 < t
   show some (o'.shouldOpen t).2 = _
   rw [I.answer hn t hm.1.1 (ohi_le_of_all hw t _ hm.1.2)]
 
+/-- HYSTRIX, ANY ORDER.  The same for histories in ANY timestamp order (completions stamped late — by less or by
+    more than a window —, earlier queries and view reads at arbitrary times), provided the query itself is asked at a
+    time not before anything presented so far: events stamped a full window or more behind are ignored, the others
+    count.  (`hystrix_opens_iff` is the special case of non-decreasing histories.) -/
+theorem hystrix_opens_iff_any_order (n : Nat) (dur pct vol : Int) (hn : 0 < n) (hw : 0 < tdiv dur n) (ops : List OOp) (t : Int)
+    (hl : latest ops.reverse t = true) :
+    (ostep (oexec (.hystrix (HOpener.new n dur pct vol)) ops) (.should t)).2
+      = some (hystrixShould n (tdiv dur n) pct vol ops.reverse t) := by
+  obtain ⟨o', e, I⟩ := HInv.exec hn ops _ [] (HInv.new n dur pct vol hn)
+  rw [List.append_nil] at I
+  unfold latest at hl
+  rw [Bool.and_eq_true, decide_eq_true_iff] at hl
+  rw [e]
+  show some (o'.shouldOpen t).2 = _
+  rw [I.answer hn t hl.1 (ohi_le_of_all hw t _ hl.2)]
+
+/-- a late-stamped failure exactly one window behind the newest bucket is ignored; one bucket less behind counts -/
+example : (ostep (oexec (.hystrix (HOpener.new 4 40 50 1)) [.ev .success 45, .ev .failure 5]) (.should 45)).2 = some false ∧
+          (ostep (oexec (.hystrix (HOpener.new 4 40 50 1)) [.ev .success 45, .ev .failure 15]) (.should 45)).2 = some true := by
+  decide
+
 /-- CONSECUTIVE.  For every threshold (live changes included) and every history, in any timestamp order: ShouldOpen
     iff the outcomes since the last success or transition that count (failures, timeouts) number ≥ ErrorThreshold. -/
 theorem consecutive_opens_iff (thr : Int) (ops : List OOp) (t : Int) :
@@ -55,6 +76,13 @@ theorem neutral_events_inert_spec (n : Nat) (w pct vol thr : Int) (h : List OOp)
     hystrixShould n w pct vol (.ev k t :: h) t' = hystrixShould n w pct vol h t' ∧
     consecShould thr (.ev k t :: h) = consecShould thr h := by
   rcases hk with rfl | rfl | rfl | rfl <;> exact ⟨rfl, rfl⟩
+
+/-- READING THE VIEW IS INERT: a JSON / expvar read of the opener (taken while the injected clock shows any `t`)
+    changes no answer of the specification — and `hystrix_opens_iff` above holds for histories that contain such
+    reads anywhere, so the code's later decisions are those of the history without them -/
+theorem view_reads_inert_spec (n : Nat) (w pct vol thr : Int) (h : List OOp) (t t' : Int) :
+    hystrixShould n w pct vol (.view t :: h) t' = hystrixShould n w pct vol h t' ∧
+    consecShould thr (.view t :: h) = consecShould thr h := ⟨rfl, rfl⟩
 
 /-- CIRCUIT LEVEL, every opener: a closed, not-overridden circuit opens at the completion of a call exactly when
     the call is classified failure or timeout and the opener — having been told of it — says ShouldOpen.
